@@ -608,7 +608,9 @@ theorem C10_scan_evicts (ecfg : EvCfg) (cfg : Cfg) (route : Key → Route) (la :
     limit (an empty fragment is not an error), both limits are checked on one snapshot of the statistics,
     and the background scan deletes expired or idle entries on the whole cluster under the DMap's own name -/
 theorem facts_tie : Facts.lru_evicts_one_sampled_entry = true ∧ Facts.lru_limits_checked_on_one_snapshot = true ∧
-    Facts.eviction_scan_deletes_expired_or_idle_on_cluster = true := by decide
+    Facts.eviction_scan_deletes_expired_or_idle_on_cluster = true ∧
+    -- the `EvCfg` / default TTL a theorem is instantiated with is the DMap's own: its custom section when it has one
+    Facts.dmap_config_custom_section_overrides_global = true := by decide
 
 /-! Non-vacuity: MaxKeys = 2 over 1 owned partition, three Puts: the third evicts (here: the first key),
     the fragment holds 2 keys and the key just written is there. -/
